@@ -636,6 +636,11 @@ impl Stdfs {
                 dst_root.mash(src.path().trim_prefix(src_root.path()))
             };
 
+            // Copying an entry onto itself changes nothing, fs::copy would truncate the file
+            if dst_path == src.path() {
+                continue;
+            }
+
             // Recreate links if were not following them
             if !cp.follow && src.is_symlink() {
                 Stdfs::symlink(dst_path, src.alt())?;
